@@ -312,8 +312,19 @@ def _apply_symbolic_all(h):
     if uses_sym:
         h.ensure(f"{name}.backend-gets-the-current-value", any(abs(c - 0.35) < 1e-12 for c in nums), bounded_shape=True)
     cur = vars(op)
-    same = set(cur) == set(snap) and all(cur[k] is v and (items is None or (len(v) == len(items) and all(a is b for a, b in zip(v, items))))
-                                          for k, (v, items) in snap.items())
+
+    def _eq(a, b):
+        if a is b:
+            return True
+        try:
+            r = (a == b)
+            return bool(r) if not hasattr(r, "all") else bool(r.all())
+        except Exception:
+            return False
+    # lists hold the SAME parameter objects element by element (an equal, re-created container is not a change)
+    same = set(cur) == set(snap) and all(
+        (isinstance(cur[k], list) and len(cur[k]) == len(items) and all(a is b for a, b in zip(cur[k], items))) if items is not None else _eq(cur[k], v)
+        for k, (v, items) in snap.items())
     h.ensure(f"{name}.operation-object-untouched", same, bounded_shape=True)
     # the symbol changes its value (re-measurement, new binding): the next application must use the new value
     src.val = -0.9                                  # sym now evaluates to -0.35
